@@ -87,6 +87,9 @@ func configs(tierName string, r *core.Rand) []Config {
 	chunks := []string{"whole", "one", "prime", "rand"}
 	logs := []string{"OFF", "OFF", "DEBUG"}
 	n := 60
+	if *lean {
+		n = 40 // the race detector costs 5-15x
+	}
 	ops := 60
 	if tierName == "thorough" {
 		n = 320
@@ -250,7 +253,19 @@ func runCase(id string, cfg Config, r *core.Rand) {
 	}
 	hits0 := gates.Total()
 
-	pa := erpc.NewPeer(erpc.PeerConfig{PrintDetail: cfg.Log != "OFF", CountTime: cfg.Log != "OFF"})
+	pacfg := erpc.PeerConfig{PrintDetail: cfg.Log != "OFF", CountTime: cfg.Log != "OFF"}
+	if cfg.TCP && cfg.Soup && p.Stream {
+		// race-detector runs over TCP use a redial-enabled client: the soup closes the server side of one
+		// connection mid-traffic, so redial runs concurrently with calls, pushes and the API soup
+		pacfg.RedialTimes, pacfg.RedialInterval = 3, time.Millisecond
+	}
+	var acceptor *tcpAcceptor
+	defer func() {
+		if acceptor != nil {
+			acceptor.lis.Close()
+		}
+	}()
+	pa := erpc.NewPeer(pacfg)
 	pb := erpc.NewPeer(erpc.PeerConfig{PrintDetail: cfg.Log != "OFF", CountTime: cfg.Log != "OFF"})
 	tok.Register(pa)
 	tok.Register(pb)
@@ -260,7 +275,13 @@ func runCase(id string, cfg Config, r *core.Rand) {
 		connect := func(a, b erpc.Peer, pfa, pfb erpc.ProtoFunc, prep func(ca, cb *memconn.Conn)) (*bed.Link, error) {
 			if cfg.TCP && p.Stream {
 				// real sockets: Peer.Dial on one side, an accept loop handing connections to ServeConn on the other
-				return connectTCP(a, b, pfa)
+				if acceptor == nil {
+					var err error
+					if acceptor, err = newTCPAcceptor(b, pfa); err != nil {
+						return nil, err
+					}
+				}
+				return connectTCP(acceptor, a, pfa)
 			}
 			if !p.Stream {
 				// websocket sub-protocols: real websocket handshake and framing over the in-memory connection
@@ -360,13 +381,16 @@ func runCase(id string, cfg Config, r *core.Rand) {
 			}
 			// on some extra sessions the connection is closed / cut while traffic and the soup run
 			// (race detector over the close and disconnect paths); their calls may fail, which is not judged here
-			if si == 0 && cfg.S >= 2 && r.Intn(2) == 0 {
+			if si == 0 && (cfg.S >= 2 && r.Intn(2) == 0 || cfg.TCP && p.Stream) {
 				soupWg.Add(1)
 				mode := r.Intn(3)
 				go func(l *bed.Link) {
 					defer soupWg.Done()
 					for i := 0; i < 200 && atomic.LoadInt64(&cs.callsOK) < 20; i++ {
 						time.Sleep(time.Millisecond)
+					}
+					if cfg.TCP && p.Stream {
+						mode = 1 // close the server side: the redial-enabled client reconnects
 					}
 					switch mode {
 					case 0:
@@ -473,37 +497,52 @@ func runCase(id string, cfg Config, r *core.Rand) {
 	}
 }
 
-// connectTCP joins the peers over loopback TCP: a dials, b serves the accepted connection.
-func connectTCP(a, b erpc.Peer, pf erpc.ProtoFunc) (*bed.Link, error) {
+// tcpAcceptor is a loopback listener whose accept loop hands every connection to ServeConn of peer b;
+// it stays up for the whole case so that a redial-enabled client can reconnect.
+type tcpAcceptor struct {
+	lis net.Listener
+	ch  chan erpc.Session
+}
+
+func newTCPAcceptor(b erpc.Peer, pf erpc.ProtoFunc) (*tcpAcceptor, error) {
 	lis, err := net.Listen("tcp", "127.0.0.1:0")
 	if err != nil {
 		return nil, err
 	}
-	defer lis.Close()
-	type acc struct {
-		s  erpc.Session
-		st *erpc.Status
-	}
-	ch := make(chan acc, 1)
+	t := &tcpAcceptor{lis: lis, ch: make(chan erpc.Session, 64)}
 	go func() {
-		c, err := lis.Accept()
-		if err != nil {
-			ch <- acc{nil, erpc.NewStatus(1, "accept", err.Error())}
-			return
+		for {
+			c, err := lis.Accept()
+			if err != nil {
+				return
+			}
+			go func() {
+				if s, st := b.ServeConn(c, pf); st.OK() {
+					select {
+					case t.ch <- s:
+					default:
+					}
+				}
+			}()
 		}
-		s, st := b.ServeConn(c, pf)
-		ch <- acc{s, st}
 	}()
-	sa, st := a.Dial(lis.Addr().String(), pf)
+	return t, nil
+}
+
+// connectTCP joins the peers over loopback TCP: a dials, b serves the accepted connection.
+func connectTCP(t *tcpAcceptor, a erpc.Peer, pf erpc.ProtoFunc) (*bed.Link, error) {
+	sa, st := a.Dial(t.lis.Addr().String(), pf)
 	if !st.OK() {
 		return nil, fmt.Errorf("dial: %v", st)
 	}
-	r := <-ch
-	if !r.st.OK() {
-		return nil, fmt.Errorf("serve: %v", r.st)
+	var sb erpc.Session
+	select {
+	case sb = <-t.ch:
+	case <-time.After(10 * time.Second):
+		return nil, fmt.Errorf("server side session did not appear")
 	}
 	ca, cb := memconn.NewPair() // placeholders so that Link users can call Sever/Close on them harmlessly
-	return &bed.Link{A: sa, B: r.s, CA: ca, CB: cb}, nil
+	return &bed.Link{A: sa, B: sb, CA: ca, CB: cb}, nil
 }
 
 // waitOrStall waits for the traffic goroutines; if nothing progresses any more and the process is
